@@ -119,7 +119,7 @@ Definition tabulate {A} (n : nat) (f : nat -> A) : nat -> A :=
 Definition compact (n : nat) (s : st) : st :=
   {| clock := clock s; th := tabulate n (th s); registered := registered s; newflag := newflag s;
      invalid_cnt := invalid_cnt s; cache := cache s; pc := pc s; tsnow := tsnow s; lg := lg s; sk := sk s;
-     nsinks := nsinks s; nloggers := nloggers s; flags := flags s; obs := obs s;
+     nsinks := nsinks s; nloggers := nloggers s; lastfl := lastfl s; flags := flags s; obs := obs s;
      issued := tabulate n (issued s); delivered := tabulate n (delivered s); plog := plog s; gh := gh s |}.
 
 Definition yield_of (p : pc_t) : N :=
@@ -286,22 +286,22 @@ Fixpoint dec_sinks (n : nat) (i : nat) (l : list N) (f : nat -> snk) : (nat -> s
 
 Definition st0 (clock0 : N) (nl ns : nat) (lgf : nat -> lgr) (skf : nat -> snk) : st :=
   {| clock := clock0; th := fun _ => thr0; registered := []; newflag := false; invalid_cnt := 0; cache := [];
-     pc := PIdle; tsnow := 0; lg := lgf; sk := skf; nsinks := ns; nloggers := nl; flags := []; obs := [];
+     pc := PIdle; tsnow := 0; lg := lgf; sk := skf; nsinks := ns; nloggers := nl; lastfl := 0; flags := []; obs := [];
      issued := fun _ => []; delivered := fun _ => []; plog := [];
      gh := {| g_denied := 0; g_reported := 0; g_lost := 0 |} |}.
 
 (* case: be <dropping> <capk> <batch> <on_batch> <on_drain> <tinit> <soft> <hard> <grace> <bits> <refresh2>
-        <catchall> <report_first> <bt_reset> <bt_guard> <bt_catch> <clock0> <nloggers> {level nsinks sinks..} <nsinks> {level nthrow idx..} commands... *)
+        <catchall> <report_first> <bt_reset> <bt_guard> <bt_catch> <flush_iv> <clock0> <nloggers> {level nsinks sinks..} <nsinks> {level nthrow idx..} commands... *)
 Definition be_run_enc (l : list N) : list N :=
   match l with
-  | dr :: capk :: batch :: ob :: od :: tinit :: soft :: hard :: grace :: bits :: rf2 :: ca :: rfirst :: btr :: btg :: btc :: clock0 :: nl :: r =>
+  | dr :: capk :: batch :: ob :: od :: tinit :: soft :: hard :: grace :: bits :: rf2 :: ca :: rfirst :: btr :: btg :: btc :: fiv :: clock0 :: nl :: r =>
       let K := {| c_cap := 2 ^ capk; c_batch := batch;
                   c_pub := {| on_batch := negb (ob =? 0); on_drain := negb (od =? 0) |};
                   c_dropping := negb (dr =? 0); c_tinit := tinit; c_soft := soft; c_hard := hard;
                   c_grace := grace; c_bits := bits; c_refresh2 := negb (rf2 =? 0); c_catch_all := negb (ca =? 0);
                   c_report_first := negb (rfirst =? 0);
                   c_bt := {| reset_index_in_process := negb (btr =? 0); cap0_guard := negb (btg =? 0) |};
-                  c_bt_catch := negb (btc =? 0) |} in
+                  c_bt_catch := negb (btc =? 0); c_flush_iv := fiv |} in
       let (lgf, r1) := dec_loggers (N.to_nat nl) 0 r (fun _ => mk_lgr 0 []) in
       match r1 with
       | ns :: r2 =>
